@@ -42,7 +42,9 @@ Params(k) ==
     [] k = "Constant"  -> { <<v>> : v \in {Q(-1,2), Zero, Q(3,4)} }
 Valid(k, p) ==
   CASE k = "Triangle"  -> Le(p[1], p[2]) /\ Le(p[2], p[3])
-    [] k \in {"Trapezoid", "PiShape"} -> Le(p[1], p[2]) /\ Le(p[2], p[3]) /\ Le(p[3], p[4])
+    [] k = "Trapezoid" -> Le(p[1], p[2]) /\ Le(p[2], p[3]) /\ Le(p[3], p[4])
+    \* the documented definition is the product of an S-shape and a Z-shape: the two edges may overlap (top_left beyond top_right)
+    [] k = "PiShape" -> Le(p[1], p[2]) /\ Le(p[3], p[4])
     [] k = "GaussianProduct" -> Le(p[1], p[3])
     [] k \in {"SigmoidDifference", "SigmoidProduct"} -> Le(p[1], p[4])
     [] OTHER -> TRUE
